@@ -131,7 +131,7 @@ class Scratch:
 
     def __init__(self) -> None:
         base = "/dev/shm" if os.path.isdir("/dev/shm") and os.access("/dev/shm", os.W_OK) else None
-        self.root = tempfile.mkdtemp(prefix="htamc_", dir=base)
+        self.root = tempfile.mkdtemp(prefix=f"htamc_{os.getpid()}_", dir=base)
         self.n = 0
 
     def fresh(self) -> str:
@@ -145,6 +145,28 @@ class Scratch:
 
     def close(self) -> None:
         shutil.rmtree(self.root, ignore_errors=True)
+
+
+def sweep_stale_scratch() -> int:
+    """remove scratch roots whose owning process is gone (pool workers leave through os._exit, so their atexit
+    handlers never run)"""
+    base = "/dev/shm" if os.path.isdir("/dev/shm") else tempfile.gettempdir()
+    n = 0
+    for name in os.listdir(base):
+        if not name.startswith("htamc_"):
+            continue
+        parts = name.split("_")
+        try:
+            pid = int(parts[1])
+            os.kill(pid, 0)
+            continue            # owner still alive
+        except (ValueError, IndexError, ProcessLookupError):
+            pass
+        except PermissionError:
+            continue
+        shutil.rmtree(os.path.join(base, name), ignore_errors=True)
+        n += 1
+    return n
 
 
 def write_world(d: str, ranks: Dict[int, List[Dict[str, Any]]], fmt: str = "json",
